@@ -58,7 +58,7 @@ func Mutate(raw string, a []Edit) (string, error) {
 	s := raw
 	for _, edit := range a {
 		start := edit.Location
-		if start > len(s) {
+		if start > len(s) || start < 0 {
 			return "", fmt.Errorf("edit start location is out of bounds")
 		}
 		if len(edit.New) <= 0 {
